@@ -663,7 +663,7 @@ func genC01(t *rapid.T) c01Case {
 		c := c01Case{Carrier: rapid.SampledFrom([]string{cHTTP, cHTTPMux, cHTTPPer}).Draw(t, "fcarrier")}
 		c.Fault = rapid.SampledFrom([]string{"lost-reply", "short-request"}).Draw(t, "faultkind")
 		fs := genScript(t, scriptGenOpts{MaxMsg: 6000, MDKeys: 0, FewOps: true, NoEarly: true, PlainStatus: true, OnlyKinds: []string{kUnary, kUnary, kUnary, kServerStream, kClientStream, kBidi}})
-		fs.Spoof, fs.Deadline, fs.OptReuse, fs.RegAllBidi, fs.Chunked, fs.PreSendHdr = 0, false, false, false, false, false
+		fs.Spoof, fs.Deadline, fs.OptReuse, fs.RegAllBidi, fs.Chunked, fs.PreSendHdr, fs.SlowFinish = 0, false, false, false, false, false, false
 		for i := range fs.Reqs {
 			fs.Reqs[i].Anys, fs.Reqs[i].Unknown = nil, nil
 		}
